@@ -15,6 +15,7 @@ import (
 	"runtime"
 	"strings"
 	"testing"
+	"unsafe"
 
 	"github.com/grailbio/bigslice"
 	"github.com/grailbio/bigslice/sliceio"
@@ -720,12 +721,20 @@ func TestVerifC18SliceConstructors(t *testing.T) {
 	o = call(func() bigslice.Slice { bigslice.Func(42); return nil })
 	one("func", "not a function", reject, nil, 0, file, line, o)
 	// FuncValue.Invocation
-	paramU := []reflect.Type{tInt, tString, tInts, tIface, tSlice, reflect.TypeOf((*int)(nil)), reflect.TypeOf(map[string]int(nil))}
+	// every kind of parameter type that can and that cannot hold nil
+	paramU := []reflect.Type{tInt, tString, tInts, tIface, tSlice, reflect.TypeOf((*int)(nil)), reflect.TypeOf(map[string]int(nil)),
+		reflect.TypeOf((func(int) int)(nil)), reflect.TypeOf((chan int)(nil)), reflect.TypeOf(unsafe.Pointer(nil)), tErr,
+		reflect.TypeOf([2]int{}), reflect.TypeOf(struct{ A int }{})}
 	seven := 7
-	argU := []interface{}{1, "s", []int{1}, nil, &seven, map[string]int{"a": 1}, built[0], 2.5}
+	argU := []interface{}{1, "s", []int{1}, nil, &seven, map[string]int{"a": 1}, built[0], 2.5,
+		func(x int) int { return x }, make(chan int), unsafe.Pointer(&seven), fmt.Errorf("e"), [2]int{1, 2}, struct{ A int }{3}}
+	applied := 0
 	for _, params := range tuples(paramU, 2) {
 		ft := reflect.FuncOf(params, []reflect.Type{tSlice}, false)
-		fv := bigslice.Func(reflect.MakeFunc(ft, func([]reflect.Value) []reflect.Value { panic("never called") }).Interface())
+		fv := bigslice.Func(reflect.MakeFunc(ft, func([]reflect.Value) []reflect.Value {
+			applied++
+			return []reflect.Value{reflect.ValueOf(&built[0]).Elem()}
+		}).Interface())
 		for nargs := 0; nargs <= 2; nargs++ {
 			var rec2 func(args []interface{})
 			rec2 = func(args []interface{}) {
@@ -763,6 +772,18 @@ func TestVerifC18SliceConstructors(t *testing.T) {
 				o := call(func() bigslice.Slice { fv.Invocation("loc", args...); return nil })
 				what := fmt.Sprintf("%v called with %d args %v", ft, len(args), argTypes(args))
 				one("invocation", what, v, nil, 0, file, line, o)
+				// Apply: "panics with a type error if argument type or arity do not match"; accepted
+				// arguments reach the function (which returns a slice). Apply is not an operator
+				// constructor, so the attribution of its error is not asserted, only its kind.
+				before := applied
+				ao := call(func() bigslice.Slice { return fv.Apply(args...) })
+				if ao.tcErr != nil {
+					ao.tcErr.File, ao.tcErr.Line = file, line
+				}
+				one("apply", what, v, nil, 0, file, line, ao)
+				if ao.accepted && applied != before+1 {
+					vs.report(fmt.Sprintf("apply: %s: accepted, but the function was called %d times", what, applied-before), "apply:not-called", nil)
+				}
 			}
 			rec2(nil)
 		}
